@@ -25,6 +25,13 @@ CLAIMS = {
         "note": "Trusts libmpdec configured as decimal128 and Python Fraction. decNumber's deliberate <=3-byte over-reads of its own stack buffers are not instrumented (documented in lib/runner.py and DESIGN.md). ASan-clean is not memory safety.",
         "design_ref": "DESIGN.md §3 C02",
     },
+    "C03": {
+        "category": "exploration",
+        "technique": "reference-model oracle (R-DT, decision-table semantics transcribed from the statement) over observed evaluations through both implementation paths (DMN XML and recognised drawing)",
+        "text": "Generated tables (1..5 inputs, 1..3 outputs, 1..8 rules, all 11 hit policy / aggregator markers, entries -, literals, comparisons, intervals, disjunctions, not(...), optional allowed input values, output values and default output) are written as DMN XML and as Unicode drawings, loaded by the real parser / recognizer and evaluated by ModelEvaluator and build_decision_table_evaluator for input tuples steered with the reference to match no rule, exactly one and several rules (equal and differing outputs); every observed value is compared with R-DT. Quick 6000 tables, thorough 120000.",
+        "note": "R-DT (lib/props/c03.py) is trusted; priority policies without output values, output entries outside the allowed output values, compound defaults and aggregation over compound or non-numeric outputs are undecided. Table generator, entry specs, steering and writers are lib/gdraw.py (self-validated against the shipped drawings by C19). Negative end points are avoided in entries (the FEEL grammar of the repository rejects them in unary tests).",
+        "design_ref": "DESIGN.md §3 C03",
+    },
     "C05": {
         "category": "exploration",
         "technique": "crash/panic channel monitor (catch_unwind + panic hook + child-process death + watchdog) over hostile workloads, on debug and release builds in full and an ASan slice",
